@@ -304,6 +304,78 @@ def c14(shape: Shape, hist, obs, realisation: str = "") -> List[Viol]:
     return res
 
 
+# -- C18 ---------------------------------------------------------------------------------
+
+def c18(shape: Shape, hist, obs, obs_plain, realisation: str = "") -> List[Viol]:
+    """obs: replay with dds_export_graph on every dds.eval; obs_plain: the same history without."""
+    res: List[Viol] = []
+    tags = ",".join(shape.tags)
+    for (i, rec) in evals(hist):
+        (o, q) = (obs.get(i, {}), obs_plain.get(i, {}))
+        if o.get("fatal") or q.get("fatal"):
+            raise RuntimeError("worker failure: %s" % (o.get("fatal") or q.get("fatal"),))
+        if rec["err"] != "" or rec["style"] != "eval":
+            continue
+        if q.get("err") is not None:
+            break      # the evaluation itself is refused: not C18's business
+        if o.get("err") is not None:
+            res.append(("C18|export-fails|%s|%s" % (o["err"]["type"], tags), _detail(shape, hist, i, o, realisation=realisation)))
+            break
+        sy = lambda x: [op for op in (x.get("ops") or []) if op[0] == "sync"]
+        if o.get("result") != q.get("result") or sy(o) != sy(q):
+            res.append(("C18|export-perturbs|%s" % tags, _detail(shape, hist, i, o, realisation=realisation, without=q.get("result"))))
+            break
+        g = o.get("graph") or {}
+        if g.get("missing") or "nodes" not in g:
+            res.append(("C18|no-graph-file|%s" % tags, _detail(shape, hist, i, o, realisation=realisation)))
+            break
+        exp = rec["graph"]
+        nodes = set(g["nodes"])
+        solid = set((u, v) for (u, v, st) in g["edges"] if st == "solid")
+        dashed = set((u, v) for (u, v, st) in g["edges"] if st == "dashed")
+        other = set((u, v, st) for (u, v, st) in g["edges"] if st not in ("solid", "dashed"))
+        e_nodes = set(exp["nodes"])
+        e_solid = set((u, v) for (u, v) in exp["solid"])
+        e_dashed = set((u, v) for (u, v) in exp["dashed"])
+        e_dotted = set((u, v) for (u, v) in exp["dotted"])
+        det = lambda **kw: _detail(shape, hist, i, o, realisation=realisation, expected_graph=exp, observed_graph=g, **kw)
+        if not e_nodes <= nodes:
+            res.append(("C18|missing-node|%s" % tags, det(missing=sorted(e_nodes - nodes))))
+        elif nodes - e_nodes:
+            res.append(("C18|extra-node|%s" % tags, det(extra=sorted(nodes - e_nodes))))
+        elif e_solid - solid:
+            res.append(("C18|missing-solid-edge|%s" % tags, det(missing=sorted(e_solid - solid))))
+        elif solid - e_solid:
+            res.append(("C18|extra-solid-edge|%s" % tags, det(extra=sorted(solid - e_solid))))
+        elif e_dashed - dashed:
+            res.append(("C18|missing-dashed-edge|%s" % tags, det(missing=sorted(e_dashed - dashed))))
+        elif dashed - e_dashed:
+            res.append(("C18|extra-dashed-edge|%s" % tags, det(extra=sorted(dashed - e_dashed))))
+        else:
+            bad = sorted(x for x in other if x[2] != "dotted" or (x[0], x[1]) not in e_dotted)
+            if bad:
+                res.append(("C18|unexpected-further-edge|%s" % tags, det(extra=bad)))
+            else:
+                # acyclic
+                E = solid | dashed | set((u, v) for (u, v, _) in other)
+                succ: Dict[str, set] = {}
+                for (u, v) in E:
+                    succ.setdefault(u, set()).add(v)
+                def reach(a):
+                    seen = set(); st = [a]
+                    while st:
+                        x = st.pop()
+                        for y in succ.get(x, ()):
+                            if y not in seen:
+                                seen.add(y); st.append(y)
+                    return seen
+                if any(n in reach(n) for n in nodes):
+                    res.append(("C18|cyclic-graph|%s" % tags, det()))
+        if res:
+            break
+    return res
+
+
 # -- C10 ---------------------------------------------------------------------------------
 
 def c10(shape: Shape, hist, obs, realisation: str = "") -> List[Viol]:
